@@ -96,6 +96,12 @@ pub struct Families {
     pub collapse_templates: bool,
     /// seeded: require-heavy top levels (the C12 generator) with sort_requires on
     pub req_blocks: bool,
+    /// the single-comment enumeration also feeds each case as CRLF text (Unix and Windows output)
+    pub cenum_crlf: bool,
+    /// the single-comment enumeration uses only the inline block comment shape
+    pub cenum_block_only: bool,
+    /// pinned: two comments around every token of the harness's own corpus files
+    pub comment_pairs: bool,
 }
 
 pub const CT_HEADERS: [(&str, &str); 10] = [
@@ -212,6 +218,9 @@ impl Work {
         }
         if fam.collapse_templates && !only_seeded {
             n += CT_HEADERS.len() * CT_BODIES.len();
+        }
+        if fam.comment_pairs && !only_seeded {
+            n += self.own_files().len() * PAIR_KINDS.len();
         }
         n
     }
@@ -348,7 +357,9 @@ impl Work {
         }
         if fam.comment_enum && !only_seeded {
             if i < self.corpus.len() * 3 {
-                self.comment_enum_item(ctx, i / 3, i % 3, f);
+                if !(fam.cenum_block_only && i % 3 != 1) {
+                    self.comment_enum_item(ctx, i / 3, i % 3, fam.cenum_crlf, f);
+                }
                 return;
             }
             i -= self.corpus.len() * 3;
@@ -595,6 +606,23 @@ impl Work {
             }
             i -= seeded / 4;
         }
+        if fam.collapse_templates && !only_seeded && i >= CT_HEADERS.len() * CT_BODIES.len() {
+            i -= CT_HEADERS.len() * CT_BODIES.len();
+            if fam.comment_pairs {
+                let own = self.own_files();
+                if i < own.len() * PAIR_KINDS.len() {
+                    self.comment_pair_item(ctx, own[i / PAIR_KINDS.len()], i % PAIR_KINDS.len(), fam.cenum_crlf, f);
+                }
+            }
+            return;
+        }
+        if !fam.collapse_templates && fam.comment_pairs && !only_seeded {
+            let own = self.own_files();
+            if i < own.len() * PAIR_KINDS.len() {
+                self.comment_pair_item(ctx, own[i / PAIR_KINDS.len()], i % PAIR_KINDS.len(), fam.cenum_crlf, f);
+            }
+            return;
+        }
         if fam.collapse_templates && !only_seeded && i < CT_HEADERS.len() * CT_BODIES.len() {
             let (h0, h1) = CT_HEADERS[i / CT_BODIES.len()];
             let body = CT_BODIES[i % CT_BODIES.len()];
@@ -686,10 +714,120 @@ impl Work {
     }
 }
 
+/// (first comment after token k, second comment after token k or k+1)
+pub const PAIR_KINDS: [(&str, &str, bool, &str); 5] = [
+    ("block+line", " --[[c8]] ", true, " -- c9\n"),
+    ("block+block", " --[[c8]] ", true, " --[[c9]] "),
+    ("line+line", " -- c8\n", true, " -- c9\n"),
+    ("own-line+multiline", "\n-- c8\n", false, "--[[ c9\n     c9 ]]\n"),
+    ("block+own-line", " --[[c8]] ", false, "\n-- c9\n"),
+];
+
 impl Work {
+    fn own_files(&self) -> Vec<usize> {
+        self.corpus.iter().enumerate().filter(|(_, f)| f.name.starts_with("own/")).map(|(i, _)| i).collect()
+    }
+
+    /// W-pairs: two comments around every token of one of the harness's own corpus files: the
+    /// first after token k, the second after token k+1 (`next_token`) or directly behind the first.
+    /// Defects that need two comments (one moved in front of a separator, one behind it) are out of
+    /// reach of the single-comment enumeration.
+    fn comment_pair_item(&self, ctx: &mut Ctx, fi: usize, kind: usize, windows_too: bool, f: &mut dyn FnMut(&mut Ctx, &Eval)) {
+        use crate::lex;
+        use crate::sig;
+        use crate::stmts;
+        let file = &self.corpus[fi];
+        let base = Cfg::with_syntax(file.syntax);
+        let cs = sig::comments(&file.text);
+        let rm: Vec<bool> = cs.iter().map(|c| !c.directive && c.shape != "shebang").collect();
+        let text = sig::without(&file.text, &cs, &rm);
+        let ast = match fmt::parse(&text, &base) {
+            Some(a) => a,
+            None => return,
+        };
+        let infos = stmts::collect(&ast);
+        let lx = match lex::lex(&text) {
+            Ok(l) => l,
+            Err(_) => return,
+        };
+        let ts0 = lex::token_stream(&lx, base.int_subtype());
+        let toks: Vec<lex::Tok> = lx.toks().cloned().collect();
+        let class = |t: &lex::Tok| -> String {
+            let s = &text[t.start..t.end];
+            match t.kind {
+                lex::TokKind::Name => if lex::is_keyword(s) { s.to_string() } else { "ID".to_string() },
+                lex::TokKind::Number => "NUM".to_string(),
+                lex::TokKind::Str => "STR".to_string(),
+                lex::TokKind::InterpSeg => "ISTR".to_string(),
+                lex::TokKind::Sym => s.to_string(),
+            }
+        };
+        let (kname, first, next_token, second) = PAIR_KINDS[kind];
+        let quick = ctx.quick();
+        for k in 0..toks.len() {
+            if quick && (k + fi + kind) % 5 != 0 {
+                continue;
+            }
+            let p1 = toks[k].end;
+            let modified = if next_token {
+                let Some(t2) = toks.get(k + 1) else { continue };
+                let p2 = t2.end;
+                format!("{}{}{}{}{}", &text[..p1], first, &text[p1..p2], second, &text[p2..])
+            } else {
+                format!("{}{}{}{}", &text[..p1], first, second, &text[p1..])
+            };
+            if !fmt::parses(&modified, &base) {
+                ctx.count("pairs.rejected_by_parser");
+                continue;
+            }
+            match lex::lex(&modified) {
+                Ok(l2) if lex::token_stream(&l2, base.int_subtype()) == ts0 => {}
+                _ => {
+                    ctx.count("pairs.changes_tokens");
+                    continue;
+                }
+            }
+            let stmt_kind = infos
+                .iter()
+                .filter(|s| s.start < p1 && p1 < s.end)
+                .max_by_key(|s| s.depth)
+                .map(|s| s.kind)
+                .unwrap_or("Block");
+            let n1 = toks.get(k + 1).map(|n| class(n)).unwrap_or_else(|| "EOF".to_string());
+            let n2 = toks.get(k + 2).map(|n| class(n)).unwrap_or_else(|| "EOF".to_string());
+            let presig = format!("pair:{kname}:{stmt_kind}:{}|{n1}|{n2}", class(&toks[k]));
+            ctx.count("pairs.cases");
+            let mut cfgs: Vec<(String, Cfg)> = Vec::new();
+            for w in [120usize, 40] {
+                let mut c = base.clone();
+                c.column_width = w;
+                cfgs.push((format!("w{w}"), c));
+            }
+            if windows_too {
+                let mut c = base.clone();
+                c.line_endings = "Windows";
+                cfgs.push(("windows".to_string(), c));
+            }
+            for (tag, c) in cfgs {
+                let ps = if tag == "windows" { format!("{presig}:windows") } else { presig.clone() };
+                f(
+                    ctx,
+                    &Eval {
+                        id: format!("pairs:{}:{kname}:tok{k}:{tag}", file.name),
+                        src: modified.clone(),
+                        cfg: c,
+                        range: None,
+                        pinned: true,
+                        presig: Some(ps),
+                    },
+                );
+            }
+        }
+    }
+
     /// W-enum: one comment of shape `shape` after every significant token of corpus file `fi`
     /// (comments of the file removed first, so the inserted comment is the only one).
-    fn comment_enum_item(&self, ctx: &mut Ctx, fi: usize, shape: usize, f: &mut dyn FnMut(&mut Ctx, &Eval)) {
+    fn comment_enum_item(&self, ctx: &mut Ctx, fi: usize, shape: usize, crlf: bool, f: &mut dyn FnMut(&mut Ctx, &Eval)) {
         use crate::lex;
         use crate::sig;
         use crate::stmts;
@@ -792,6 +930,47 @@ impl Work {
                         presig: Some(presig.clone()),
                     },
                 );
+            }
+            if crlf && shape == 2 {
+                // a multi-line block comment on its own lines: its inner line endings are rewritten
+                // by the token formatter only (LF text -> Windows output, CRLF text -> Unix output)
+                let ml = format!("{}\n--[[ c9\n     c9 ]]\n{}", &text[..pos], &text[pos..]);
+                if fmt::parses(&ml, &base) {
+                    for (tag, src_ml, le) in [("lf-Windows", ml.clone(), "Windows"), ("crlf-Unix", ml.replace('\n', "\r\n"), "Unix")] {
+                        let mut c = base.clone();
+                        c.line_endings = le;
+                        f(
+                            ctx,
+                            &Eval {
+                                id: format!("cenum:{}:block-multiline:tok{k}:{tag}", file.name),
+                                src: src_ml,
+                                cfg: c,
+                                range: None,
+                                pinned: true,
+                                presig: Some(format!("block-multiline:{kind}:{}|{next}:{tag}", class(t))),
+                            },
+                        );
+                    }
+                }
+            }
+            if crlf {
+                // the same case as CRLF text: comments that bypass the token formatter keep their `\r`
+                let src_crlf = modified.replace("\r\n", "\n").replace('\n', "\r\n");
+                for le in ["Unix", "Windows"] {
+                    let mut c = base.clone();
+                    c.line_endings = le;
+                    f(
+                        ctx,
+                        &Eval {
+                            id: format!("cenum:{}:{shape_name}:tok{k}:crlf-{le}", file.name),
+                            src: src_crlf.clone(),
+                            cfg: c,
+                            range: None,
+                            pinned: true,
+                            presig: Some(format!("{presig}:crlf-input")),
+                        },
+                    );
+                }
             }
         }
     }
